@@ -5,7 +5,8 @@
 // running and becomes an oracle failure with the instance as replay):
 //     [balanceDemand();]  solve();  assign();
 // and prints the answers; the Lean driver replays the same op lines on the model
-// (and, on `cert`, checks its own plan against the verified optimality certificate).
+// (and, on `cert`, checks its own plan against the verified optimality certificate; on `loc` —
+// every case — checks the positions of the sweep against the verified local certificate `locCertOk`).
 // Direct oracle (independent code, evaluates the statement of C14):
 //   * balanceDemand: total demand >= total supply afterwards, demands only grow, nothing else changes
 //   * solve: entries in range and positive, every supply met exactly, no demand exceeded,
@@ -178,6 +179,9 @@ static void runCase(const Inst &in, std::ostream &os, ll dpLimit) {
     if (solved) os << "I cert ok\nC certificate_checked_in_lean\n";
     else os << "I cert throw:runtime_error\n";
   }
+  // every case: the model's positions must pass the verified local certificate (`locCertOk`)
+  if (solved) os << "I loc ok\nC local_certificate_checked_in_lean\n";
+  else os << "I loc throw:runtime_error\n";
   if (split) os << "C some_source_split\n";
   if (offNearest) os << "C some_source_not_at_nearest_sink\n";
   if (inDomain && (split || offNearest)) os << "N\n";
@@ -219,6 +223,7 @@ struct Runner {
     if (in.balance) out.ops << "balance\n";
     out.ops << "solve\nassign\n";
     if (in.cert) out.ops << "cert\n";
+    out.ops << "loc\n";
   }
   // dispatch the tagged lines of the cases starting at index k; returns the index after the last complete case
   size_t dispatch(const std::string &output, size_t k, bool &open) {
